@@ -113,10 +113,9 @@ Theorem c09_search_set_exact : forall (s : seqset) (total : Z),
 Proof. exact search_set_exact. Qed.
 Print Assumptions c09_search_set_exact.
 
-(** UID SEARCH UID <set> outside its finding class *)
+(** UID SEARCH UID <set> (same evaluator and matcher since e09cd6b): exactly the denoted UIDs *)
 Theorem c09_uidsearch_set_exact : forall (s : seqset) (uids : list Z),
-  wf s = true -> classify_uidsearch s = None ->
-  uidsearch_set (print s) uids = addressed_uids s uids.
+  wf s = true -> uidsearch_set (print s) uids = addressed_uids s uids.
 Proof. exact uidsearch_set_exact. Qed.
 Print Assumptions c09_uidsearch_set_exact.
 
@@ -135,7 +134,8 @@ Print Assumptions c09_plain_copy_set_exact.
     untagged EXISTS / EXPUNGE strictly (an EXPUNGE must name a message it has).
     For EVERY trace of SELECT, NOOP, CHECK, EXPUNGE, UID EXPUNGE, STORE(Junk) and
     other commands, with ARBITRARY changes of the mailbox by deliveries and other
-    sessions in between, outside the three bookkeeping classes its count equals
+    sessions in between, outside the one bookkeeping class (an EXPUNGE notice for a
+    message the session was never told about) its count equals
     the session's LastMessageCount after every command ... *)
 Theorem c09_session_count_sync : forall (tr : list titem) (rows0 : list msg),
   let st := run_trace (Cmd CSelect :: tr) rows0 in
@@ -157,12 +157,6 @@ Definition session_refuted (cls : sfinding) : Prop := exists tr rows0,
 
 Definition m_ (i : Z) (f : str) : msg := {| m_id := i; m_uid := i; m_flags := f |}.
 
-Theorem c09_refuted_check_swallows : session_refuted SF_check_swallows.
-Proof. exists [Ext [m_ 1 []; m_ 2 []]; Cmd CCheck], [m_ 1 []]. vm_compute. repeat split; try reflexivity. discriminate. Qed.
-Print Assumptions c09_refuted_check_swallows.
-Theorem c09_refuted_junk_move_count : session_refuted SF_junk_move_count.
-Proof. exists [Cmd (CJunk (S_ "1"))], [m_ 1 []; m_ 2 []]. vm_compute. repeat split; try reflexivity. discriminate. Qed.
-Print Assumptions c09_refuted_junk_move_count.
 Theorem c09_refuted_expunge_unannounced : exists tr rows0,
   let st := run_trace (Cmd CSelect :: tr) rows0 in
   t_cls st = Some SF_expunge_unannounced /\ t_nodup st = true /\ t_cnt st = None.
@@ -170,12 +164,6 @@ Proof. exists [Ext [m_ 1 []; m_ 2 (S_ "\Deleted")]; Cmd CExpunge], [m_ 1 []]. vm
 Print Assumptions c09_refuted_expunge_unannounced.
 
 (** ---- refutations: every remaining finding class contains a violating input ---- *)
-Theorem c09_refuted_uidsearch_shape : exists s uids,
-  wf s = true /\ classify_uidsearch s = Some F_uidsearch_shape
-  /\ uidsearch_ok s uids (uidsearch_set (print s) uids) = false.
-Proof. exists [One (Num 2)], [1;2;3]. vm_compute. repeat split; reflexivity. Qed.
-Print Assumptions c09_refuted_uidsearch_shape.
-
 Theorem c09_refuted_noop_notices : exists old new,
   classify_noop old new = Some F_noop_notices /\ noop_ok old new = false.
 Proof. exists [1;2;3], [2;3]. vm_compute. split; reflexivity. Qed.
@@ -205,6 +193,16 @@ Example c09_pending_exists_survives_expunge :
   let st := run_trace [Cmd CSelect; Ext [m_ 1 (S_ "\Deleted"); m_ 2 []; m_ 3 []]; Cmd CExpunge; Cmd CNoop] [m_ 1 []; m_ 2 []] in
   t_cls st = None /\ t_last st = 2 /\ t_cnt st = Some 2 /\ map m_uid (t_rows st) = [2; 3]
   /\ sess_step CNoop [m_ 2 []; m_ 3 []] 1 = ([NExists 2], [m_ 2 []; m_ 3 []], 2).
+Proof. vm_compute. repeat split; reflexivity. Qed.
+
+(** CHECK leaves the count alone and the Junk auto-move takes its message off it:
+    the next NOOP announces the pending addition once and no removal twice *)
+Example c09_regression_check_and_junk :
+  (let st := run_trace [Cmd CSelect; Ext [m_ 1 []; m_ 2 []]; Cmd CCheck; Cmd CNoop] [m_ 1 []] in
+   t_cls st = None /\ t_cnt st = Some 2 /\ t_last st = 2)
+  /\ (let st := run_trace [Cmd CSelect; Cmd (CJunk (S_ "1")); Cmd CNoop] [m_ 1 []; m_ 2 []] in
+      t_cls st = None /\ t_cnt st = Some 1 /\ t_last st = 1 /\ map m_uid (t_rows st) = [2])
+  /\ sess_step CNoop [m_ 2 []] 1 = ([], [m_ 2 []], 1).
 Proof. vm_compute. repeat split; reflexivity. Qed.
 
 (** ---- non-vacuity ---- *)
